@@ -15,8 +15,11 @@ def make_sort_key(table, sort_spec):
   col_sort_spec = []
   for col_spec in sort_spec:
     col_id, sign = (col_spec[1:], -1) if col_spec.startswith('-') else (col_spec, 1)
-    col_obj = table.get_column(col_id)
-    col_sort_spec.append((col_obj, sign))
+    table.get_column(col_id)      # Fail now if there is no such column.
+    # Keep the column ID rather than the column object: the object is replaced when the column changes
+    # between data and formula (or is removed and added again), and a key bound to the old object
+    # would keep sorting by its stale values.
+    col_sort_spec.append((col_id, sign))
 
   class SortKey(object):
     __slots__ = ("row_id", "values")
@@ -26,10 +29,11 @@ def make_sort_key(table, sort_spec):
       # must still be comparable to any valid row_id (e.g. must not be None). We use
       # +-sys.float_info.max in records.py for this.
       self.row_id = row_id
-      self.values = values or tuple(c.get_cell_value(row_id) for (c, _) in col_sort_spec)
+      self.values = values or tuple(
+        table.get_column(c).get_cell_value(row_id) for (c, _) in col_sort_spec)
 
     def __lt__(self, other):
-      for (a, b, (col_obj, sign)) in zip(self.values, other.values, col_sort_spec):
+      for (a, b, (_col_id, sign)) in zip(self.values, other.values, col_sort_spec):
         try:
           if a < b:
             return sign == 1
